@@ -211,3 +211,7 @@ pub use exports::*;
 #[cfg(not(feature = "__internal-api"))]
 pub(crate) use exports::*;
 use serde::{Deserialize, Serialize};
+
+#[cfg(feature = "pendulum_project_ntpd_rs_verif")]
+#[path = "/verif/hooks/ntp-proto/lib.rs"]
+pub mod verif;
